@@ -218,7 +218,8 @@ func vC13Enc(v any) []byte {
 func TestVerif_C13_commit(t *testing.T) {
 	ctx := context.Background()
 	r := vNewRand(vSeed() + 1313)
-	maxCases := vEnvInt("VERIF_N", 4000)
+	maxCases := 10000000
+	pairsWanted := vEnvInt("VERIF_N", 300) // random double-site mutations on top of the exhaustive single-site sweep
 	sink := vOpenSink("C13_commit")
 	defer sink.Close()
 	emitted := 0
@@ -295,6 +296,32 @@ func TestVerif_C13_commit(t *testing.T) {
 				}
 			}
 		})
+		// ---- random double-site mutations of oracle 0's observation
+		if tree, err := vDecodeJSON(obsB[0]); err == nil {
+			var paths [][]vPathElem
+			vPaths(tree, nil, &paths)
+			for k := 0; k < pairsWanted/4 && len(paths) > 1; k++ {
+				p1, p2 := paths[r.Intn(len(paths))], paths[r.Intn(len(paths))]
+				k1, k2 := vPick(r, vMutKinds), vPick(r, vMutKinds)
+				m1, ok := vMutate(tree, p1, k1)
+				if !ok {
+					continue
+				}
+				m2, ok := vMutate(m1, p2, k2)
+				if !ok {
+					continue
+				}
+				mb := vC13Enc(m2)
+				path, kind := vPathString(p1)+" & "+vPathString(p2), k1+"+"+k2
+				valid := false
+				run(sc.name, 0, path, kind, 1, "ValidateObservation", func() {
+					valid = vC13Plugin(1).ValidateObservation(ctx, octx, qB, types.AttributedObservation{Observation: mb, Observer: 0}) == nil
+				})
+				if valid {
+					run(sc.name, 0, path, kind, 2, "Outcome", func() { _, _ = vC13Plugin(2).Outcome(ctx, octx, qB, mkAos(mb)) })
+				}
+			}
+		}
 		// ---- doc 1: query
 		sweep(1, qB, func(path, kind string, mb []byte) {
 			run(sc.name, 1, path, kind, 0, "Observation", func() { _, _ = vC13Plugin(1).Observation(ctx, octx, mb) })
